@@ -243,6 +243,7 @@ def batch(prop: str, tier: str, verif_seed: int, n_runs: int | None = None,
 
     # ---- violations
     reported = []
+    unreproduced: dict = {}
     known_hit: dict[str, int] = Counter()
     seen_classes = set()
     os.makedirs(os.path.join(VERIF, "replays"), exist_ok=True)
@@ -263,10 +264,16 @@ def batch(prop: str, tier: str, verif_seed: int, n_runs: int | None = None,
         mops, final, tests = ddmin(prop, r["seed"], r["cfg"], r["ops"], vc,
                                    budget_s=60.0 if tier == "quick" else 180.0)
         if final is None:
-            # could not re-produce even the original: a harness problem
-            harness_errors.append({"i": r["i"], "harness_error":
-                                   "violation did not reproduce in a forked child: "
-                                   + json.dumps(v, default=str)[:500]})
+            # the original did not re-produce in a forked child.  When the
+            # defect itself is a nondeterminism of the library (e.g. an order
+            # taken from memory addresses) a particular run need not repeat:
+            # other runs of the same class are tried before giving up
+            unreproduced.setdefault(vc, []).append(
+                {"i": r["i"], "harness_error":
+                 "violation did not reproduce in a forked child: "
+                 + json.dumps(v, default=str)[:500]})
+            if len(unreproduced[vc]) < 5:
+                seen_classes.discard(vc)
             continue
         fv = [x for x in final["violations"] if vclass(x) == vc][0]
         path = os.path.join(VERIF, "replays",
@@ -281,8 +288,15 @@ def batch(prop: str, tier: str, verif_seed: int, n_runs: int | None = None,
         if ok:
             reported.append((path, fv))
         else:
-            harness_errors.append({"i": r["i"], "harness_error":
-                                   f"replay file {path} did not reproduce in a fresh interpreter"})
+            unreproduced.setdefault(vc, []).append(
+                {"i": r["i"], "harness_error":
+                 f"replay file {path} did not reproduce in a fresh interpreter"})
+            if len(unreproduced[vc]) < 5:
+                seen_classes.discard(vc)
+    rep_classes = {vclass(fv) for _p, fv in reported}
+    for vc, errs in unreproduced.items():
+        if vc not in rep_classes:
+            harness_errors.append(errs[0])
     kf_by_id = {f["id"]: f for f in known.get("findings", [])}
     for fid, n in sorted(known_hit.items()):
         f = kf_by_id[fid]
